@@ -281,7 +281,7 @@ V("C11", "input element forgets to reset the flag", E,
   '"ctx.use_top_input = True; lhs = get_input(ctx); "\n'
   '        "ctx.use_top_input = False; stack.append(lhs)",',
   '"ctx.use_top_input = True; lhs = get_input(ctx); "\n'
-  '        "stack.append(lhs)",', "C11.explicit-read-template")
+  '        "stack.append(lhs)",', "C11.explicit-read-transition")
 # ---- C12 ----------------------------------------------------------------------------
 V("C12", "for template forgets to pop", T,
   '            + indent_str("    ctx.context_values.pop()", indent)\n        )\n'
